@@ -133,6 +133,12 @@ fn run_op(op: &str, hs: &mut Hs, lent: Option<&LeanString>, out: &mut ThreadOut)
             hs.v[i].0.pop();
             hs.v[i].1.pop();
         }
+        "rm" => {
+            if !hs.v[i].1.is_empty() {
+                hs.v[i].0.remove(0);
+                hs.v[i].1.remove(0);
+            }
+        }
         "clear" => {
             hs.v[i].0.clear();
             hs.v[i].1.clear();
@@ -511,7 +517,7 @@ pub fn run(out_dir: &str, sample_every: usize, max_runs: usize, isolate: bool) -
 pub fn probe() -> i32 {
     let mut out = json!({});
     for (name, shared) in [("unique", false), ("shared", true)] {
-        for op in ["clone", "drop", "push", "reserve", "trunc", "clear", "shrink"] {
+        for op in ["clone", "drop", "push", "reserve", "trunc", "clear", "shrink", "rm", "retain"] {
             shim::begin_call(&[]);
             shim::set_record_events(true);
             let mut a = new_x();
@@ -547,6 +553,14 @@ pub fn probe() -> i32 {
                 }
                 "shrink" => {
                     a.shrink_to_fit();
+                    shim::take_events_into(&mut out, name, op, blk.id);
+                }
+                "rm" => {
+                    a.remove(0);
+                    shim::take_events_into(&mut out, name, op, blk.id);
+                }
+                "retain" => {
+                    a.retain(|c| c != 'b');
                     shim::take_events_into(&mut out, name, op, blk.id);
                 }
                 _ => {}
